@@ -12,7 +12,11 @@ import os
 from .. import ref
 from ..lab import CONTENTS, LFS, MD5, make_odb, put_raw
 from ..world import World, digest_obj, objects_only, store_snapshot, walk_files
+from ..lab import BULK, BULK_MD5
 from ..xfer import FaultFS, Plan
+
+CONTENTS = dict(CONTENTS, **BULK)
+MD5 = dict(MD5, **BULK_MD5)
 
 D = {"a": "y", "b/c": "z"}
 E = {"k": "x", "m": "w"}          # shares x with the top-level file f
@@ -24,7 +28,10 @@ INDEXES = {
     "one": {("f",): ("file", "x"), ("d",): ("dir", D)},
     # a storage prefix (e,s) that lies strictly *inside* a directory entry given only as a directory object
     "inside": {("f",): ("file", "x"), ("e",): ("dir", {"s/k": "x", "s/m": "w", "g": "y"})},
+    # one directory of 1300 files (beyond every batching constant); only used by the special runs
+    "bulk": {("f",): ("file", "x"), ("d",): ("dir", {f"f{i:04d}": c for i, c in enumerate(BULK)})},
 }
+SIMPLE = {"": {"remote": "R1", "cache": "C1"}, "d": {"remote": None, "cache": None}, "e/s": {"remote": None, "cache": None}}
 
 
 def tree_listing(t):
@@ -98,7 +105,7 @@ def placements():
 
 
 class Lab:
-    def __init__(self, w, suffix=""):
+    def __init__(self, w, suffix="", local_remote=False):
         self.w = w
         self.ffs = {}
         self.stores = {}
@@ -114,7 +121,13 @@ class Lab:
             cfg = {"tmp_dir": w.p("tmp", r)} if r == "R1" else {}
             if cfg:
                 os.makedirs(cfg["tmp_dir"], exist_ok=True)
-            self.stores[r] = HashFileDB(f, f.store_root, **cfg)
+            if local_remote and r == "R1":
+                # a remote that is a local directory (its existence query is an integrity check)
+                from dvc_data.hashfile.db.local import LocalHashFileDB
+
+                self.stores[r] = LocalHashFileDB(f, f.store_root, **cfg)
+            else:
+                self.stores[r] = HashFileDB(f, f.store_root, **cfg)
 
     def make_index(self, iname, placement, caches=None, order="short-first"):
         from dvc_data.hashfile.hash_info import HashInfo
@@ -139,7 +152,7 @@ class Lab:
         return idx
 
 
-def one_exec(iname, placement, fail, order="short-first", enoent=False):
+def one_exec(iname, placement, fail, order="short-first", enoent=False, variant=None):
     from dvc_data.index.checkout import apply, compare
     from dvc_data.index.collect import collect
     from dvc_data.index.fetch import fetch
@@ -149,7 +162,20 @@ def one_exec(iname, placement, fail, order="short-first", enoent=False):
     info = {"fired": 0, "pushed": None}
     entries = INDEXES[iname]
     with World() as w:
-        lab = Lab(w)
+        lab = Lab(w, local_remote=variant == "local-remote-leftover")
+        ckw = {}
+        if variant == "cache-index":
+            # the collected per-remote indexes are kept in a persistent cache index that is reused by the retry
+            from dvc_data.index import DataIndex
+
+            ckw = {"cache_index": DataIndex.open(w.p("collect.sqlite")), "cache_key": ("push",)}
+        if variant == "local-remote-leftover":
+            # an interrupted earlier upload left a truncated, unprotected file under the name of the first object
+            k0, o0, d0 = sorted(expanded(entries), key=lambda t: t[1])[0]
+            pth = lab.stores["R1"].oid_to_path(o0)
+            os.makedirs(os.path.dirname(pth), exist_ok=True)
+            with open(pth, "wb") as fh:
+                fh.write(d0[: len(d0) // 2])
         # populate the cache designated for each entry
         for key, oid, data in expanded(entries):
             put_raw(lab.stores[designated(placement, key, "cache")], oid, data)
@@ -165,7 +191,7 @@ def one_exec(iname, placement, fail, order="short-first", enoent=False):
             plans[r] = f.plan = Plan(fail_oids=fail, enoent=enoent)
         before = {r: set(objects_only(store_snapshot(lab.stores[r].path))) for r in ("R1", "R2")}
         try:
-            data = collect([idx], "remote", push=True)
+            data = collect([idx], "remote", push=True, **ckw)
             pushed, failed = push(data)
         except Exception as e:  # noqa: BLE001
             import traceback
@@ -176,7 +202,9 @@ def one_exec(iname, placement, fail, order="short-first", enoent=False):
         info["pushed"] = (pushed, failed)
         after = {r: objects_only(store_snapshot(lab.stores[r].path)) for r in ("R1", "R2")}
         new_pairs = sum(len(set(after[r]) - before[r]) for r in after)
-        if pushed != new_pairs:
+        if variant == "local-remote-leftover":
+            pass   # (the leftover's name was there before: the count of new names says nothing)
+        elif pushed != new_pairs:
             viol.append(("pushed-count-differs-from-objects-that-arrived", f"pushed={pushed} arrived={new_pairs} failed={failed}"))
 
         def remote_complete():
@@ -225,7 +253,7 @@ def one_exec(iname, placement, fail, order="short-first", enoent=False):
                 f.plan = Plan()
             try:
                 idx_r = lab.make_index(iname, placement, order=order)
-                push(collect([idx_r], "remote", push=True))
+                push(collect([idx_r], "remote", push=True, **ckw))
             except Exception as e:  # noqa: BLE001
                 viol.append((f"retry-push-raises-{type(e).__name__}", repr(e)))
             miss2 = remote_complete()
@@ -340,6 +368,26 @@ def run_case(case):
                     sigs.add(sig)
                     res["viol"].append((sig, detail, {"index": iname, "placement": placement, "fail": list(fail),
                                                       "order": order, "enoent": enoent}))
+    if case.get("i") == 0:
+        some = sorted(reachable(INDEXES["one"][("d",)]))
+        specials = [("bulk", SIMPLE, [], "short-first", False, None),
+                    ("one", SIMPLE, [], "short-first", False, "local-remote-leftover"),
+                    ("full", SIMPLE, [], "short-first", False, "local-remote-leftover")]
+        for fl in ([], [some[0]], [some[-1]], some[:2]):
+            specials.append(("one", SIMPLE, fl, "short-first", False, "cache-index"))
+            specials.append(("full", placement, fl, "short-first", False, "cache-index"))
+        for iname, pl, fl, order, enoent, variant in specials:
+            viol, info = one_exec(iname, pl, list(fl), order, enoent, variant)
+            res["n"] += 1
+            res["trans"] += 4
+            res["vac"]["special_runs"] = res["vac"].get("special_runs", 0) + 1
+            tag = variant or iname
+            for sig, detail in viol:
+                sig = f"{sig}/{tag}"
+                if sig not in sigs:
+                    sigs.add(sig)
+                    res["viol"].append((sig, detail[:600], {"index": iname, "placement": pl, "fail": list(fl),
+                                                            "order": order, "variant": variant, "tag": tag}))
     res["outcomes"] = sorted(res["outcomes"])[:40]
     res["nontrivial"] = sorted(res["nontrivial"])
     if case.get("i") == 100:
@@ -348,6 +396,10 @@ def run_case(case):
 
 
 def replay(case):
+    if case.get("tag"):
+        v = one_exec(case["index"], case["placement"], case["fail"], case.get("order", "short-first"), False,
+                     case.get("variant"))[0]
+        return [(f"{s_}/{case['tag']}", d_) for s_, d_ in v]
     v = one_exec(case["index"], case["placement"], case["fail"], case.get("order", "short-first"),
                  case.get("enoent", False))[0]
     return [(s_ + "/enoent", d_) for s_, d_ in v] if case.get("enoent") else v
@@ -370,12 +422,12 @@ def run(ctx):
         "fetch: the union of the fresh caches must equal the reachable set exactly and each entry's objects must "
         "be in its designated cache",
     ]
-    ctx.require("faults_fired", "multi_remote_placements", "role_fallback_placements", "enoent_faults")
+    ctx.require("faults_fired", "multi_remote_placements", "role_fallback_placements", "enoent_faults", "special_runs")
     cs = []
     nf = 48 if ctx.tier == "thorough" else 12
     step = max(1, len(ps) // nf)
     for i, p in enumerate(ps):
-        cs.append({"placement": p, "indexes": list(INDEXES), "faults": False, "i": i})
+        cs.append({"placement": p, "indexes": [k for k in INDEXES if k != "bulk"], "faults": False, "i": i})
     for i, p in enumerate(ps[::step][:nf]):
         cs.append({"placement": p, "indexes": ["full"] if ctx.tier == "thorough" else ["one"], "faults": True})
     ctx.run_cases("run_case", cs, chunksize=1, det=2)
